@@ -113,10 +113,13 @@ void runProg(Prog& pr) {
         if (what <= 1) { ++G.semSignals; G.sem->signal(); }
         else if (what == 2) { G.blockedIn[me] = 1; bool ok = G.sem->wait(); G.blockedIn[me] = 0; if (ok) { ++G.semSuccess; if (G.semSuccess > G.semInitial + G.semSignals) failC("semaphore:count", "more successful waits than initial value plus signals"); } }
         else if (what == 3 || what == 4) {
-          long long t0 = nowMs(); long timeout = 1 + arg % 3000;
+          long long t0 = nowMs(); long long timeout = 1 + arg % 3000;
+          if (arg % 13 == 7) { timeout = (arg & 1) ? 0x7fffffffffffffffLL : 10000000000000LL; vs::childLabel("practically_infinite_timeout"); }   // behaves like an untimed wait
+          G.blockedIn[me] = timeout > 100000000 ? 1 : 0;
           bool ok = G.sem->wait((int64)timeout);
+          G.blockedIn[me] = 0;
           if (ok) { ++G.semSuccess; if (G.semSuccess > G.semInitial + G.semSignals) failC("semaphore:count", "more successful waits than initial value plus signals"); vs::childLabel("timed_wait_success"); }
-          else { long long el = nowMs() - t0; if (el < timeout) { char d[160]; snprintf(d, sizeof d, "wait(%ld ms) returned false after %lld ms of virtual time", timeout, el); failC("semaphore:early-timeout", d); } vs::childLabel("timed_wait_timeout"); }
+          else { long long el = nowMs() - t0; if (el < timeout) { char d[160]; snprintf(d, sizeof d, "wait(%lld ms) returned false after %lld ms of virtual time", timeout, el); failC("semaphore:early-timeout", d); } vs::childLabel("timed_wait_timeout"); }
         } else { bool ok = G.sem->tryWait(); if (ok) { ++G.semSuccess; if (G.semSuccess > G.semInitial + G.semSignals) failC("semaphore:count", "tryWait succeeded without a count"); } }
         break;
       }
@@ -129,10 +132,13 @@ void runProg(Prog& pr) {
           if (!ok) failC("signal:wait-false", "untimed wait returned false");
           if (!signalMayBeSet(w0)) failC("signal:wait-without-set", "wait returned true although the signal was not set since its last reset");
         } else {
-          long w0 = G.tick++; long long t0 = nowMs(); long timeout = 1 + arg % 3000;
+          long w0 = G.tick++; long long t0 = nowMs(); long long timeout = 1 + arg % 3000;
+          if (arg % 13 == 7) { timeout = (arg & 1) ? 0x7fffffffffffffffLL : 10000000000000LL; vs::childLabel("practically_infinite_timeout"); }
+          G.blockedIn[me] = timeout > 100000000 ? 1 : 0;
           bool ok = G.sig->wait((int64)timeout);
+          G.blockedIn[me] = 0;
           if (ok) { if (!signalMayBeSet(w0)) failC("signal:wait-without-set", "timed wait returned true although the signal was not set since its last reset"); }
-          else { long long el = nowMs() - t0; if (el < timeout) { char d[160]; snprintf(d, sizeof d, "wait(%ld ms) returned false after %lld ms of virtual time", timeout, el); failC("signal:early-timeout", d); } vs::childLabel("timed_wait_timeout"); }
+          else { long long el = nowMs() - t0; if (el < timeout) { char d[160]; snprintf(d, sizeof d, "wait(%lld ms) returned false after %lld ms of virtual time", timeout, el); failC("signal:early-timeout", d); } vs::childLabel("timed_wait_timeout"); }
         }
         break;
       }
@@ -142,7 +148,9 @@ void runProg(Prog& pr) {
           if (what == 0) ++G.monInWait;   // from here on a set() can only take the monitor after this thread waits (untimed waiters only: a timed waiter may time out just before the set)
           bool ok;
           if (what == 0) { G.blockedIn[me] = 1; ok = G.mon->wait(); G.blockedIn[me] = 0; if (!ok) failC("monitor:wait-false", "untimed wait returned false"); }
-          else { long long t0 = nowMs(); long timeout = 1 + arg % 3000; ok = G.mon->wait((int64)timeout); if (!ok) { long long el = nowMs() - t0; if (el < timeout) { char d[160]; snprintf(d, sizeof d, "wait(%ld ms) returned false after %lld ms of virtual time", timeout, el); failC("monitor:early-timeout", d); } vs::childLabel("timed_wait_timeout"); } }
+          else { long long t0 = nowMs(); long long timeout = 1 + arg % 3000;
+            if (arg % 13 == 7) { timeout = (arg & 1) ? 0x7fffffffffffffffLL : 10000000000000LL; vs::childLabel("practically_infinite_timeout"); }
+            G.blockedIn[me] = timeout > 100000000 ? 1 : 0; ok = G.mon->wait((int64)timeout); G.blockedIn[me] = 0; if (!ok) { long long el = nowMs() - t0; if (el < timeout) { char d[160]; snprintf(d, sizeof d, "wait(%lld ms) returned false after %lld ms of virtual time", timeout, el); failC("monitor:early-timeout", d); } vs::childLabel("timed_wait_timeout"); } }
           if (what == 0) --G.monInWait;
           if (ok) { ++G.monSuccess; if (G.monOutstanding > 0) --G.monOutstanding; if (G.monSuccess > G.monSetsTotal) failC("monitor:more-waits-than-sets", "successful waits outnumber set() calls"); }
           G.mon->unlock();
@@ -155,6 +163,14 @@ void runProg(Prog& pr) {
         unsigned want = (unsigned)(arg * 7 + 3);
         Thread t;
         ThreadArg a{false, points + (int)(arg % 2), want}; Worker w; w.a = a;
+        if (arg % 11 == 5) {
+          // the system cannot create a thread right now (EAGAIN): start() reports that, and the same Thread object starts fine afterwards
+          vsched::failNextThreadCreations(1);
+          bool ok0 = (what & 1) ? t.start(w, &Worker::run) : t.start(&threadProc, &a);
+          vsched::failNextThreadCreations(0);
+          if (ok0) failC("thread:start-true-without-thread", "Thread::start returned true although no thread could be created");
+          vs::childLabel("thread_creation_failed_once");
+        }
         bool ok = (what & 1) ? t.start(w, &Worker::run) : t.start(&threadProc, &a);
         if (!ok) failC("thread:start-failed", "Thread::start returned false");
         if (what >= 4) vsched::point("between start and join");
